@@ -292,76 +292,10 @@ Definition stop_io_host (env : sw_env) (h : host) (casc : bool) : prog resp :=
 Definition res_ok (rs : list (host * resp)) (h : host) : bool :=
   match assoc h rs with Some ROk => true | None => true | _ => false end.   (* absent key: errs[host] == nil *)
 
-(* the procedure; mem is the manager's process-local memory used by updateActiveNodes *)
-Definition perform_switchover (cfg : config) (env : sw_env) (sw : switch_rec) (mem : an_mem) : prog (sw_err * an_mem) :=
+(* ---- stage 3: from the second lock re-check to the end (phases 5 and 6) -------- *)
+Definition sw_promote (cfg : config) (env : sw_env) (mem : an_mem) (active : list host) (nm : host) (most_recent_set : gtidset)
+  : prog (sw_err * an_mem) :=
   let old := se_old_master env in
-  let cs := se_state env in
-  let active_with_old := se_active env in
-  if match sw_to sw with Some t => negb (mem_host t active_with_old) | None => false end then Ret (SwErr 1227, mem)
-  else if match dubious_ha_hosts cs with [] => false | _ => true end then Ret (SwErr 1232, mem)
-  else
-  let active :=
-    match sw_cause_ sw, sw_from sw with
-    | CauseAuto, Some f => if N.eqb f old then filter_out active_with_old [old] else active_with_old
-    | _, _ => active_with_old
-    end in
-  e0 <- opt_disable_all old active ;;
-  match e0 with Some _ => Ret (SwErr 1245, mem) | None =>
-  (* optimisation phase: only for master_transition = switchover with semi-sync; modelled in Procs/OptPhase *)
-  (if negb (is_failover sw) then start_timing_now 0 else Ret tt) ;;;
-  Par 1260 (map (fun h => (h, freeze_host env h)) active) (fun errs =>
-  if negb (res_ok errs old) && mem_host old active && negb (is_failover sw) then
-    e <- finish_switchover sw false ;;
-    Ret (match e with Some _ => SwErr 1299 | None => SwErr 1302 end, mem)
-  else
-  match state_ping cs old with
-  | None => Panic 1308
-  | Some _ =>
-  Par 1315 (map (fun h => (h, stop_io_host env h (match assoc h (se_all_hosts env) with Some c => c | None => false end))) (filter_out active [old])) (fun errs2 =>
-  let frozen := filter (fun h => res_ok errs h && res_ok errs2 h) active in
-  if negb (check_quorum (c_semi_sync cfg) (c_wait_count cfg) (Z.of_nat (length active_with_old)) (Z.of_nat (length frozen))) then Ret (SwErr 1345, mem)
-  else
-  l1 <- lock_acquire 1350 ;;
-  if negb l1 then Ret (SwErr 1351, mem) else
-  op <- node_positions 1356 frozen ;;
-  match op with
-  | None => Ret (SwErr 1358, mem)
-  | Some positions =>
-  if negb (Nat.eqb (length positions) (length frozen)) then Ret (SwErr 1361, mem)
-  else if match positions, sw_from sw with [p], Some f => N.eqb f (p_host p) | _, _ => false end then Ret (SwErr 1364, mem)
-  else
-  match most_recent positions with
-  | RecentPanic => Panic 1368
-  | RecentSplitBrain => Do 1370 (FileWrite (se_emerge_file env)) (fun _ => Ret (SwErr 1375, mem))
-  | RecentFound most_recent_host most_recent_set =>
-  let choice :=
-    match sw_to sw, sw_from sw with
-    | Some t, _ => Some t
-    | None, Some f =>
-        let ps := filter_out_host positions f in
-        match most_desirable (S (length ps)) ps (bound_of cfg) with
-        | DesFound h => Some h
-        | _ => None
-        end
-    | None, None => Some most_recent_host
-    end in
-  match choice with
-  | None => Ret (SwErr 1389, mem)
-  | Some nm =>
-  pre <- (if negb (N.eqb nm most_recent_host) then
-            e <- exec_ 1401 most_recent_host SSetOnline ;;
-            match e with
-            | Some _ => Ret false
-            | None => e2 <- perform_change_master cfg nm most_recent_host ;; Ret (match e2 with Some _ => false | None => true end)
-            end
-          else Ret true) ;;
-  if negb pre then Ret (SwErr 1403, mem) else
-  t0 <- now_ 2291 ;;
-  cu <- wait_for_catch_up 2000 cfg nm most_recent_set sw (t0 + c_slave_catch_up_timeout cfg) ;;
-  match cu with
-  | None => Ret (SwErr 1414, mem)
-  | Some false => Ret (SwErr 1417, mem)
-  | Some true =>
   l2 <- lock_acquire 1421 ;;
   if negb l2 then Ret (SwErr 1422, mem) else
   cs2 <- cluster_state_from_db 1427 (se_all_hosts env) ;;
@@ -391,7 +325,7 @@ Definition perform_switchover (cfg : config) (env : sw_env) (sw : switch_rec) (m
   match e7 with Some _ => Ret (SwErr 1481, mem) | None =>
   cs3 <- cluster_state_from_db 1486 (se_all_hosts env) ;;
   ua <- update_active_nodes cfg {| ae_master := nm; ae_master_uuid := match assoc nm (se_uuid_of env) with Some u => u | None => 0%N end;
-                                   ae_state := cs3; ae_state_dcs := cs3; ae_old_active := active_with_old |} mem ;;
+                                   ae_state := cs3; ae_state_dcs := cs3; ae_old_active := se_active env |} mem ;;
   let mem' := snd ua in
   e8 <- exec_ 1493 nm SSetWritable ;;
   match e8 with Some _ => Ret (SwErr 1495, mem') | None =>
@@ -399,4 +333,85 @@ Definition perform_switchover (cfg : config) (env : sw_env) (sw : switch_rec) (m
   reenable_events nm ;;;
   e9 <- dcs_set_ 1517 PMaster (VHost nm) ;;
   Ret (match e9 with Some _ => SwErr 1519 | None => SwOk end, mem')
-  end end end end) end end end end end end) end) end.
+  end end end end) end end.
+
+(* the candidate: the requested host, else (moving away from a host) the most
+   desirable of the others, else the most recent one *)
+Definition sw_choose (cfg : config) (sw : switch_rec) (positions : list position) (most_recent_host : host) : option host :=
+  match sw_to sw, sw_from sw with
+  | Some t, _ => Some t
+  | None, Some f =>
+      let ps := filter_out_host positions f in
+      match most_desirable (S (length ps)) ps (bound_of cfg) with
+      | DesFound h => Some h
+      | _ => None
+      end
+  | None, None => Some most_recent_host
+  end.
+
+(* ---- stage 2: split-brain test, candidate, catch-up (phases 3 and 4), then stage 3 *)
+Definition sw_after_positions (cfg : config) (env : sw_env) (sw : switch_rec) (mem : an_mem) (active : list host) (positions : list position)
+  : prog (sw_err * an_mem) :=
+  match most_recent positions with
+  | RecentPanic => Panic 1368
+  | RecentSplitBrain => Do 1370 (FileWrite (se_emerge_file env)) (fun _ => Ret (SwErr 1375, mem))
+  | RecentFound most_recent_host most_recent_set =>
+  match sw_choose cfg sw positions most_recent_host with
+  | None => Ret (SwErr 1389, mem)
+  | Some nm =>
+  pre <- (if negb (N.eqb nm most_recent_host) then
+            e <- exec_ 1401 most_recent_host SSetOnline ;;
+            match e with
+            | Some _ => Ret false
+            | None => e2 <- perform_change_master cfg nm most_recent_host ;; Ret (match e2 with Some _ => false | None => true end)
+            end
+          else Ret true) ;;
+  if negb pre then Ret (SwErr 1403, mem) else
+  t0 <- now_ 2291 ;;
+  cu <- wait_for_catch_up 2000 cfg nm most_recent_set sw (t0 + c_slave_catch_up_timeout cfg) ;;
+  match cu with
+  | None => Ret (SwErr 1414, mem)
+  | Some false => Ret (SwErr 1417, mem)
+  | Some true => sw_promote cfg env mem active nm most_recent_set
+  end end end.
+
+(* ---- the procedure (stage 1: checks, optimisation shut-off, freeze, quorum, first
+   lock re-check, positions); mem is the manager's process-local memory used by
+   updateActiveNodes *)
+Definition perform_switchover (cfg : config) (env : sw_env) (sw : switch_rec) (mem : an_mem) : prog (sw_err * an_mem) :=
+  let old := se_old_master env in
+  let cs := se_state env in
+  let active_with_old := se_active env in
+  if match sw_to sw with Some t => negb (mem_host t active_with_old) | None => false end then Ret (SwErr 1227, mem)
+  else if match dubious_ha_hosts cs with [] => false | _ => true end then Ret (SwErr 1232, mem)
+  else
+  let active :=
+    match sw_cause_ sw, sw_from sw with
+    | CauseAuto, Some f => if N.eqb f old then filter_out active_with_old [old] else active_with_old
+    | _, _ => active_with_old
+    end in
+  e0 <- opt_disable_all old active ;;
+  match e0 with Some _ => Ret (SwErr 1245, mem) | None =>
+  (if negb (is_failover sw) then start_timing_now 0 else Ret tt) ;;;
+  Par 1260 (map (fun h => (h, freeze_host env h)) active) (fun errs =>
+  if negb (res_ok errs old) && mem_host old active && negb (is_failover sw) then
+    e <- finish_switchover sw false ;;
+    Ret (match e with Some _ => SwErr 1299 | None => SwErr 1302 end, mem)
+  else
+  match state_ping cs old with
+  | None => Panic 1308
+  | Some _ =>
+  Par 1315 (map (fun h => (h, stop_io_host env h (match assoc h (se_all_hosts env) with Some c => c | None => false end))) (filter_out active [old])) (fun errs2 =>
+  let frozen := filter (fun h => res_ok errs h && res_ok errs2 h) active in
+  if negb (check_quorum (c_semi_sync cfg) (c_wait_count cfg) (Z.of_nat (length active_with_old)) (Z.of_nat (length frozen))) then Ret (SwErr 1345, mem)
+  else
+  l1 <- lock_acquire 1350 ;;
+  if negb l1 then Ret (SwErr 1351, mem) else
+  op <- node_positions 1356 frozen ;;
+  match op with
+  | None => Ret (SwErr 1358, mem)
+  | Some positions =>
+  if negb (Nat.eqb (length positions) (length frozen)) then Ret (SwErr 1361, mem)
+  else if match positions, sw_from sw with [p], Some f => N.eqb f (p_host p) | _, _ => false end then Ret (SwErr 1364, mem)
+  else sw_after_positions cfg env sw mem active positions
+  end) end) end.
